@@ -20,7 +20,7 @@ use std::process::{Command, Stdio};
 use std::sync::atomic::{AtomicUsize, Ordering};
 use std::sync::{Arc, Mutex};
 
-pub const FAMILIES: [&str; 30] = [
+pub const FAMILIES: [&str; 36] = [
     "block-literal-lines",
     "block-folded-long-lines",
     "block-wide-indent",
@@ -51,6 +51,13 @@ pub const FAMILIES: [&str; 30] = [
     "tag-directives",
     "document-end-markers",
     "blank-and-comment-prologue",
+    // combinations: the product of two repeated things
+    "anchored-documents",
+    "tagged-directive-documents",
+    "anchor-redefinitions",
+    "aliases-in-every-document",
+    "anchored-map-values",
+    "documents-of-flow-collections",
 ];
 pub const APIS: [&str; 4] = ["iter-str", "iter-buffered", "load-yaml", "load-marked"];
 pub const RATIO_LIMIT: f64 = 6.0;
@@ -263,6 +270,39 @@ pub fn render(family: &str, bytes: usize) -> String {
             }
             s.push_str("]\n");
         }
+        "anchored-documents" => {
+            while s.len() < bytes {
+                s.push_str(&format!("--- &d{k} x\n"));
+                k += 1;
+            }
+        }
+        "tagged-directive-documents" => {
+            while s.len() < bytes {
+                s.push_str("%TAG !e! tag:e.com,2000:\n--- !e!t a\n...\n");
+            }
+        }
+        "anchor-redefinitions" => {
+            while s.len() < bytes {
+                s.push_str("- &same x\n- *same\n");
+            }
+        }
+        "aliases-in-every-document" => {
+            while s.len() < bytes {
+                s.push_str(&format!("--- [&p{k} a, *p{k}, &q{k} {{b: c}}, *q{k}]\n"));
+                k += 1;
+            }
+        }
+        "anchored-map-values" => {
+            while s.len() < bytes {
+                s.push_str(&format!("k{k}: &v{k} value\nr{k}: *v{k}\n"));
+                k += 1;
+            }
+        }
+        "documents-of-flow-collections" => {
+            while s.len() < bytes {
+                s.push_str("--- {a: [1, 2, {b: c}], d: \"e\"}\n");
+            }
+        }
         "reserved-directives" => {
             while s.len() < bytes {
                 s.push_str(&format!("%FOO{} bar baz\n", k % 7));
@@ -396,7 +436,7 @@ pub fn sizes(tier: &str) -> Vec<usize> {
     if tier == "thorough" {
         vec![65_536, 262_144]
     } else {
-        vec![49_152]
+        vec![24_576]
     }
 }
 
@@ -421,9 +461,11 @@ pub fn run(cfg: &Config) -> (i32, J) {
         }
     }
     let mut jobs = Vec::new();
+    // quick: the string iterator, the buffered iterator and one loader; thorough: also the marked loader
+    let apis: &[&str] = if cfg.tier == "thorough" { &APIS } else { &APIS[..3] };
     for n in sizes(&cfg.tier) {
         for f in FAMILIES {
-            for a in APIS {
+            for a in apis {
                 jobs.push((f.to_string(), a.to_string(), n));
             }
         }
@@ -563,9 +605,10 @@ pub fn run(cfg: &Config) -> (i32, J) {
     let wall = t0.elapsed().as_secs_f64();
     let max_ratio = worst.as_ref().map_or(0.0, |w| w.ratio);
     println!(
-        "C01 instruction clock: {} scenarios ({} families x 4 APIs x {:?} bytes, each at n and 4n) under valgrind in {:.1}s; worst growth x{:.2} ({}), limit x{RATIO_LIMIT}",
+        "C01 instruction clock: {} scenarios ({} families x {} APIs x {:?} bytes, each at n and 4n) under valgrind in {:.1}s; worst growth x{:.2} ({}), limit x{RATIO_LIMIT}",
         ok_rows.len(),
         FAMILIES.len(),
+        if cfg.tier == "thorough" { 4 } else { 3 },
         sizes(&cfg.tier),
         wall,
         max_ratio,
